@@ -1,5 +1,6 @@
 import Oas3Model.Gen.PanicSites
 import Oas3Model.Model.Depth
+import Oas3Model.Proofs.Depth
 namespace Oas3.Props.C12
 open Oas3.Gen.PanicSites Oas3.Depth
 
@@ -61,5 +62,120 @@ def justified : List ((List Char × List Char × List Char × Nat) × String) :=
 /-- every such construct found in the CURRENT sources is in the reviewed list: a new `unwrap`,
 `expect`, `panic!`, `format_ident!`, `Ident::new`, token re-parse … breaks this proof. -/
 theorem panic_sites_justified : ∀ s ∈ sites, s ∈ justified.map (·.1) := by decide +kernel
+
+/-! ## the allOf-depth recursion (`compute_inheritance_depths`) -/
+open Oas3.Graph (TC)
+
+/-- more fuel (stack) never changes a returned result -/
+theorem depth_mono (g : List (Name × List Name)) (n : Name) (f d : Nat) :
+    depth g f n = some d → depth g (f + 1) n = some d :=
+  Oas3.Proofs.Depth.depth_mono g f n d
+
+theorem depth_mono' (g : List (Name × List Name)) (n : Name) {f f' : Nat} (d : Nat) (hle : f ≤ f') :
+    depth g f n = some d → depth g f' n = some d :=
+  Oas3.Proofs.Depth.depth_mono' g hle n d
+
+/-- a schema on an allOf cycle: `compute_depth` does not return, whatever the stack size
+(recorded finding: stack overflow on cyclic allOf). -/
+theorem depth_cyclic_none (g : List (Name × List Name)) (n : Name) :
+    ∀ fuel, TC (fun a b => b ∈ parents g a) n n → depth g fuel n = none :=
+  fun fuel hc => Oas3.Proofs.Depth.depth_cyclic_none g n hc fuel
+
+/-- …and the same for every schema from which such a cycle can be reached through allOf parents. -/
+theorem depth_reaches_cycle_none (g : List (Name × List Name)) (n m : Name)
+    (hnm : n = m ∨ TC (fun a b => b ∈ parents g a) n m) (hc : TC (fun a b => b ∈ parents g a) m m) :
+    ∀ fuel, depth g fuel n = none :=
+  fun fuel => Oas3.Proofs.Depth.depth_reachesCycle_none g fuel n ⟨m, hnm, hc⟩
+
+/-- acyclic allOf graph (given by a rank function decreasing along parent edges): the recursion returns,
+within `rank n + 1` nested calls. -/
+theorem depth_acyclic_some (g : List (Name × List Name)) (rank : Name → Nat)
+    (hr : ∀ a b, b ∈ parents g a → rank b < rank a) : ∀ n, (depth g (rank n + 1) n).isSome :=
+  fun n => Oas3.Proofs.Depth.depth_acyclic_some g rank hr n
+
+/-- the two hypotheses are exclusive: a ranked graph has no cycle. -/
+theorem rank_no_cycle (g : List (Name × List Name)) (rank : Name → Nat)
+    (hr : ∀ a b, b ∈ parents g a → rank b < rank a) (n : Name) : ¬ TC (fun a b => b ∈ parents g a) n n :=
+  fun h => Nat.lt_irrefl _ (Oas3.Proofs.Depth.rank_no_cycle g rank hr n n h)
+
+/-- what is returned: 0 for a schema without allOf parents, else 1 + the maximum over the parents. -/
+theorem depth_value (g : List (Name × List Name)) (f : Nat) (n : Name) (d : Nat) (h : depth g (f + 1) n = some d) :
+    (parents g n = [] ∧ d = 0) ∨
+    (parents g n ≠ [] ∧ (∀ p ∈ parents g n, ∃ dp, depth g f p = some dp ∧ dp < d) ∧
+      ∃ p ∈ parents g n, depth g f p = some (d - 1) ∧ 0 < d) :=
+  Oas3.Proofs.Depth.depth_value g f n d h
+
+/-- characterisation of termination on the (finite) allOf graph: `compute_depth` returns for `n` with SOME
+stack size iff no allOf cycle is reachable from `n`; and then `|g| + 1` nested calls suffice. -/
+theorem depth_terminates_iff (g : List (Name × List Name)) (n : Name) :
+    (∃ f, (depth g f n).isSome) ↔
+      ¬ ∃ m, (n = m ∨ TC (fun a b => b ∈ parents g a) n m) ∧ TC (fun a b => b ∈ parents g a) m m :=
+  Oas3.Proofs.Depth.depth_terminates_iff g n
+
+theorem depth_some_of_no_cycle (g : List (Name × List Name)) (n : Name)
+    (h : ¬ ∃ m, (n = m ∨ TC (fun a b => b ∈ parents g a) n m) ∧ TC (fun a b => b ∈ parents g a) m m) :
+    (depth g (g.length + 1) n).isSome :=
+  Oas3.Proofs.Depth.depth_some_of_no_cycle g n h
+
+/-- the two-schema allOf cycle `A ⇄ B` -/
+def gCycle : List (Name × List Name) := [("A".toList, ["B".toList]), ("B".toList, ["A".toList])]
+
+theorem gCycle_cycle : TC (fun a b => b ∈ parents gCycle a) "A".toList "A".toList :=
+  .step (b := "B".toList) (by decide) (.base (by decide))
+
+/-- concrete witness by evaluation, for stack depths below 50 … -/
+theorem cex_allof_cycle : ∀ f < 50, depth gCycle f "A".toList = none := by decide +kernel
+
+/-- … and for every depth, by the general theorem. -/
+theorem cex_allof_cycle_all : ∀ f, depth gCycle f "A".toList = none :=
+  fun f => depth_cyclic_none gCycle _ f gCycle_cycle
+
+/-- a terminating instance: `C allOf [B, Root]`, `B allOf [A]`, `A allOf [Root]` -/
+def gChain : List (Name × List Name) :=
+  [("C".toList, ["B".toList, "Root".toList]), ("B".toList, ["A".toList]), ("A".toList, ["Root".toList])]
+
+example : ["Root", "A", "B", "C"].map (fun n => depth gChain 4 n.toList) = [some 0, some 1, some 2, some 3] := by
+  decide +kernel
+
+/-- too little stack: `none` -/
+example : depth gChain 3 "C".toList = none := by decide +kernel
+
+/-! ## the three-step module write -/
+
+/-- a fault before the first file leaves the directory contents unchanged -/
+theorem write_fault0_unchanged (ex : List Name) : writeModule ex (some 0) = ex := by
+  simp [writeModule]
+
+/-- recorded known limitation: a fault after the first file leaves a half-written module
+(`types.rs` without `client.rs` / `mod.rs`); the write is not atomic. -/
+theorem cex_partial_write : writeModule [] (some 1) = ["types.rs".toList] := by decide +kernel
+
+theorem cex_partial_write2 : writeModule [] (some 2) = ["types.rs".toList, "client.rs".toList] := by decide +kernel
+
+/-- success: all three files, in the order types.rs, client.rs, mod.rs -/
+theorem write_success : writeModule [] none = ["types.rs".toList, "client.rs".toList, "mod.rs".toList] := by
+  decide +kernel
+
+/-- success, any pre-existing directory contents: the three files are present and nothing is removed -/
+theorem write_success_mem (ex : List Name) :
+    (∀ f ∈ ["types.rs".toList, "client.rs".toList, "mod.rs".toList], f ∈ writeModule ex none) ∧
+    (∀ f ∈ ex, f ∈ writeModule ex none) := by
+  refine ⟨?_, ?_⟩
+  · intro f hf
+    unfold writeModule
+    dsimp only
+    by_cases hc : f ∈ ex
+    · exact List.mem_append_left _ hc
+    · apply List.mem_append_right
+      rw [List.mem_filter]
+      exact ⟨hf, by simpa using hc⟩
+  · intro f hf
+    exact List.mem_append_left _ hf
+
+/-- a fault at step `k ≥ 3` is a fault after everything was written -/
+theorem write_fault_late (ex : List Name) (k : Nat) (hk : 3 ≤ k) : writeModule ex (some k) = writeModule ex none := by
+  unfold writeModule
+  dsimp only
+  rw [List.take_of_length_le (by simpa using hk)]
 
 end Oas3.Props.C12
